@@ -108,7 +108,8 @@ def encode(fmt, bank, rng, enc, v4=False):
         return codec.brackets_encode(bank, rng, empty_root=rng.random() < 0.5,
                                      layout=rng.choice(['line', 'pretty']))
     if fmt == 'discobrackets':
-        return codec.discobrackets_encode(bank)
+        return codec.discobrackets_encode(
+            bank, rng=rng if rng.random() < 0.5 else None)
     return codec.tigerxml_encode(bank, rng if rng.random() < 0.5 else None,
                                  encoding=enc)
 
